@@ -374,7 +374,7 @@ struct CostProgram
         CostProgram c;
         c.style = style;
         c.hinge_thr = r.real(0.5, 20.0);
-        c.hinge_w = r.real(1e-4, 1e-2);
+        c.hinge_w = r.logreal(1e-9, 1e-6);
         c.tw.resize(nmax);
         c.segw.resize(nmax);
         c.wm.resize(nmax + 1);
@@ -543,8 +543,11 @@ struct SimRunningCost
                 return 0.0; // inactive: outputs deliberately left untouched
             }
             double d = sq - P.hinge_thr;
-            double c3 = P.hinge_w * d * d * d * d; // C^3 at the activation boundary (finite differences need smoothness)
-            gv = (8.0 * P.hinge_w * d * d * d) * v;
+            // C^5 at the activation boundary: Richardson-extrapolated central differences (error O(h^4 f^(5))) stay valid
+            // when a sample crosses it (a quartic hinge gave a false alarm once in ~2e5 runs of a thorough batch)
+            double d2 = d * d;
+            double c3 = P.hinge_w * d2 * d2 * d2;
+            gv = (12.0 * P.hinge_w * d2 * d2 * d) * v;
             if (cc->trace) record(t, tg, i, p, v, a, j, s, c3);
             return c3;
         }
